@@ -10,7 +10,7 @@ pub fn prop() -> HistProp {
     opts.with_time = true;
     HistProp {
         opts,
-        cfgs: || overlay_cfg_strategy(2, 2),
+        cfgs: || crate::gen::with_emb(overlay_cfg_strategy(2, 2)),
         max_ops: 30,
         max_prepop: 14,
         cases_quick: 6000,
